@@ -94,6 +94,14 @@ type State struct {
 	mustNotBlock int
 	preemptOn    bool
 	uuidSeq      int
+	interleave   *interleaveCtx
+	interleaveFork bool // this state explores "reader runs now": a reader that has to wait (lock held by the writer) simply cannot run here
+}
+
+type interleaveCtx struct {
+	reader  FuncV
+	baseObj int
+	depth   int
 }
 
 type decRec struct {
@@ -144,6 +152,8 @@ func (st *State) clone() *State {
 	n.sigs = append([]sigReg(nil), st.sigs...)
 	n.badSigs = append([]*Term(nil), st.badSigs...)
 	n.decs = append([]decRec(nil), st.decs...)
+	n.interleave = st.interleave
+	n.interleaveFork = st.interleaveFork
 	n.curGo, n.goSeq, n.syncVer, n.mustNotBlock, n.preemptOn, n.uuidSeq = st.curGo, st.goSeq, st.syncVer, st.mustNotBlock, st.preemptOn, st.uuidSeq
 	for _, g := range st.gos {
 		n.gos = append(n.gos, &Gor{id: g.id, frames: cloneFrames(g.frames), blockedAt: g.blockedAt, settling: g.settling})
